@@ -10,7 +10,7 @@ yybegin(), yyless(), yymore(), yyinput(), yyunput(), yyreject(), yy_push_state()
 the c99 back end's rewriting of those names is exercised too.
 """
 import struct
-from . import pat
+from . import pat, util
 
 C = "vf_tls"      # context expression inside generated code
 
@@ -52,6 +52,7 @@ class Emitter:
         self.o = case["opts"]
         self.fl = Flavour(flavour)
         self.rng = rng
+        self.seed = rng.u64() if rng is not None else 0
         self.pr = pat.Printer(rng, posix=bool(self.o.get("posix") or self.o.get("lex")),
                               allow_raw_high=self.o.get("bits") != 7)
         self.uniq = 0
@@ -123,7 +124,7 @@ class Emitter:
                 self.uses.add("input")
             elif k == "reject":
                 out.append("%svf_ev1(%s, \"J\");" % (indent, C))
-                if fl.c99 or (self.rng and self.rng.chance(50)):
+                if fl.c99 or (self.rng and util.Rng(self.seed, repr(ops)).chance(50)):
                     out.append("%syyreject();" % indent)
                 else:
                     out.append("%sREJECT;" % indent)
@@ -297,6 +298,21 @@ class Emitter:
             opts.append("stack")
         if "top" not in self.uses and "stack" in self.uses:
             opts.append("noyy_top_state")
+        if o.get("ci"):
+            opts.append(self.rng.choice(["case-insensitive", "caseless"]) if self.rng
+                        else "case-insensitive")
+        if o.get("posix"):
+            opts.append("posix-compat")
+        if o.get("bits") == 7 and o.get("bits_decl", True):
+            opts.append("7bit")
+        if o.get("interactive") is True:
+            opts.append("interactive")
+        elif o.get("interactive") is False:
+            opts.append("batch")
+        if o.get("bufsize"):
+            opts.append("bufsize=%d" % o["bufsize"])
+        if o.get("yylmax"):
+            opts.append("yylmax=%d" % o["yylmax"])
         if o.get("reject_opt"):
             opts.append("reject")
         if o.get("nodefault"):
@@ -325,7 +341,16 @@ class Emitter:
         return "\n".join(L) + "\n"
 
     def def_text(self, node):
-        return self.pr.pattern(node)
+        # a definition is one line; trailing blanks are stripped by flex, so it must not
+        # end in an escaped blank
+        self.pr.oneline = True
+        try:
+            t = self.pr.pattern(node)
+        finally:
+            self.pr.oneline = False
+        if t.endswith("\\ ") or t.endswith("\\\t"):
+            t = "(" + t + ")"
+        return t
 
     # ------------------------------------------------------------- driver (section 3)
     def driver_c(self):
